@@ -69,6 +69,7 @@ def run(ctx: Ctx) -> None:
     lcd_state_cover(ctx, py, rs)
     restore_identity(ctx, py, rs)
     save_is_pure_and_restore_is_unconditional(ctx, py)
+    keyboard_restore_identity(ctx, py)
 
 
 # ---------------------------------------------------------------------------
@@ -1020,3 +1021,49 @@ def save_is_pure_and_restore_is_unconditional(ctx: Ctx, py: PyProgram) -> None:
                                       f"{q} branches on `{unparse(t)[:80]}`: whether saved state is restored depends on the content of the saved data, so a snapshot taken at such a point comes back without it "
                                       f"({' -> '.join(path)})", f"{EMU}:{i.lineno}")
     ctx.instance("C16.5/save-pure-restore-unconditional", "functions reachable from save_snapshot (no CPU-visible access) and from load_snapshot (no content-aggregating guard)", n, 12)
+
+
+def keyboard_restore_identity(ctx: Ctx, py: PyProgram) -> None:
+    """KeyboardMatrix.load_state gives every per-key counter and the ring indices back exactly as saved: the method is interpreted whole
+    (on a stand-in with one key) for saved counter values inside and beyond the configured debounce / repeat windows - the repeat
+    countdown legitimately starts at repeat_delay, far above repeat_interval, so a 'clamp to the window' loses state."""
+    from ..pyfacts import ClassHost, NotConst
+    mod = py.module(KM_PY)
+    km = py.need_cls(mod, "KeyboardMatrix")
+    ctx.need("load_state" in km.methods, "KeyboardMatrix.load_state vanished")
+
+    class H:
+        _sa_host = True
+
+        def __init__(self, **k: Any):
+            for a_, b_ in k.items():
+                setattr(self, a_, b_)
+    n = 0
+    bad = None
+    for counters in ({"press_ticks": 0, "release_ticks": 0, "repeat_ticks": 0}, {"press_ticks": 5, "release_ticks": 4, "repeat_ticks": 23},
+                     {"press_ticks": 1, "release_ticks": 6, "repeat_ticks": 7}, {"press_ticks": 40, "release_ticks": 40, "repeat_ticks": 200}):
+        for pressed, debounced in ((True, True), (False, True), (True, False)):
+            ks = H(pressed=False, debounced=False, press_ticks=0, release_ticks=0, repeat_ticks=0, location=H(column=0, row=1))
+            me = ClassHost(py, mod, km, press_threshold=6, release_threshold=6, repeat_delay=24, repeat_interval=6, columns_active_high=True, scan_enabled=True,
+                           _pressed_keys=set(), _key_states={"KEY_Q": ks}, _fifo=[0] * 8, _head=0, _tail=0, strobe_count=0, column_histogram=[0] * 11,
+                           kol=0, koh=0, _kil_latch=0, irq_count=0, _count=0)
+            saved = {"pressed": pressed, "debounced": debounced, **counters}
+            state = {"press_threshold": 6, "release_threshold": 6, "repeat_delay": 24, "repeat_interval": 6, "key_states": {"KEY_Q": dict(saved)},
+                     "fifo": [1, 2, 3, 4, 5, 6, 7, 8], "head": 2, "tail": 5}
+            try:
+                me._sa_call(km, km.methods["load_state"], (state,), {})
+            except NotConst as e:
+                raise AnalysisError(f"KeyboardMatrix.load_state left the evaluable fragment: {e}")
+            for f_, want in saved.items():
+                n += 1
+                got = getattr(ks, f_)
+                if got != want and bad is None:
+                    bad = (f_, want, got)
+            n += 2
+            if (me._head, me._tail) != (2, 5) and bad is None:
+                bad = ("head/tail", (2, 5), (me._head, me._tail))
+    if bad:
+        ctx.violation("C16.6/keyboard-restore-identity", key_of(KM_PY, "KeyboardMatrix.load_state", f"{bad[0]} not restored as saved"),
+                      f"load_state restores {bad[0]} = {bad[2]!r} from a snapshot that holds {bad[1]!r}: the restored keyboard continues differently from the one that was saved "
+                      "(e.g. the first auto-repeat of a held key comes up to repeat_delay - repeat_interval scan ticks early)", f"{KM_PY}:{km.methods['load_state'].lineno}")
+    ctx.instance("C16.6/keyboard-restore-identity", "per-key counters x flag combinations and ring indices through KeyboardMatrix.load_state (interpreted): restored == saved", n, 80)
